@@ -468,14 +468,22 @@ class Evaluator:
       self.stack.pop()
     for path, exc, loc in ctx.raises:
       self.raises.append((finfo.qualname, path, exc, loc))
-    if not ctx.returns:
-      value = NONE
-    else:
-      value = ctx.returns[-1][1]
-      for path, v in reversed(ctx.returns[:-1]):
-        cond = path[-1] if len(path) == 1 else Term('bool', 'and', tuple(path)) if path else TRUE
-        value = mk_phi(cond, v, value)
+    value = self.merge_returns(ctx.returns)
     return value, ctx, env
+
+  def merge_returns(self, returns):
+    if not returns:
+      return NONE
+    paths = [p for p, _ in returns]
+    common = 0
+    while all(len(p) > common for p in paths) and all(p[common] == paths[0][common] for p in paths):
+      common += 1
+    value = returns[-1][1]
+    for path, v in reversed(returns[:-1]):
+      path = path[common:]
+      cond = path[-1] if len(path) == 1 else Term('bool', 'and', tuple(path)) if path else TRUE
+      value = mk_phi(cond, v, value)
+    return value
 
   # ------------------------------------------------------------- statements
   def exec_block(self, stmts, env, ctx):
@@ -1467,10 +1475,7 @@ class Evaluator:
       self.raises.append((fi.qualname, path, exc, l))
     if not sub.returns:
       return NONE
-    value = sub.returns[-1][1]
-    for path, v in reversed(sub.returns[:-1]):
-      cond = path[-1] if len(path) == 1 else Term('bool', 'and', tuple(path)) if path else TRUE
-      value = mk_phi(cond, v, value)
+    value = self.merge_returns(sub.returns)
     # decorators that change the value (only transparent ones are expected)
     if value.cls is None:
       rc = self.return_class(fi)
